@@ -47,6 +47,12 @@ func observeC01(tr *tracker, op *core.Op) {
 }
 
 func TestC01(t *testing.T) {
+	mix := fullMix()
+	// storage is also recycled wholesale (Reset) and batch moves also go through registered filters
+	mix[core.OpReset] = 1
+	mix[core.OpRegister] = 2
+	mix[core.OpUnregister] = 1
+	mix["useRegistered"] = 30
 	runSimProp(t, &simProp{
 		ID: "C01",
 		Cfg: core.SimConfig{
@@ -54,9 +60,9 @@ func TestC01(t *testing.T) {
 			Owned:  core.Own(core.CatComponents, core.CatInvIndex, core.CatInvTable, core.CatPanicMove, core.CatObserve),
 			Verify: core.FullVerify,
 		},
-		Mix:      fullMix(),
+		Mix:      mix,
 		MaxPlain: 6, MaxRel: 3,
-		Rule:    "histories of all mutating ID-based calls (create/remove/add/remove/exchange/assign/builders/relations/batch, value writes through Set, Get pointer and Query.Get) over a generated universe (1-6 plain + 0-3 relation types incl. zero-sized/padded ones, IDs placed anywhere in the ID range, capacity increment 1..128); after EVERY op every alive entity's Has/Mask/Ids/Get/GetUnchecked and value bytes are compared with the model, plus a full Query(All()) pass and the structural invariants (rows <-> index, zeroed free rows); non-trivial = a non-zero value was written to an entity that is still alive when a later structural op runs (then read back); distinct = distinct op sequences",
+		Rule:    "histories of all mutating ID-based calls (create/remove/add/remove/exchange/assign/builders/relations/batch through plain and registered filters, Reset, value writes through Set, Get pointer and Query.Get) over a generated universe (1-6 plain + 0-3 relation types incl. zero-sized/padded ones, IDs placed anywhere in the ID range, capacity increment 1..128); after EVERY op every alive entity's Has/Mask/Ids/Get/GetUnchecked and value bytes are compared with the model, plus a full Query(All()) pass and the structural invariants (rows <-> index, zeroed free rows); non-trivial = a non-zero value was written to an entity that is still alive when a later structural op runs (then read back); distinct = distinct op sequences",
 		Observe: observeC01,
 	})
 }
